@@ -10,6 +10,8 @@ use std::collections::{BTreeMap, HashSet};
 
 #[derive(Serialize, Deserialize, Clone, Debug)]
 pub struct FirstViol {
+    #[serde(default)]
+    pub nondet: bool,
     pub job: Job,
     pub choices: Vec<u32>,
     pub what: String,
@@ -51,6 +53,7 @@ pub fn run_once<H: Harness>(h: &H, job: &Job, prefix: &[u32], expected_n: &[u32]
             site: format!("uncaught-panic:{}", p.short_loc()),
             what: format!("panic escaped the harness body: {}", p.brief()),
             detail: Value::Null,
+            nondet: false,
         });
     }
     ex
@@ -149,6 +152,7 @@ pub fn explore_job<H: Harness>(h: &H, job: &Job, job_index: usize, w: &mut Worke
                     SiteStat {
                         count: 1,
                         first: FirstViol {
+                            nondet: v.nondet,
                             job: job.clone(),
                             choices: ex.trace.iter().map(|e| e.c).collect(),
                             what: v.what.clone(),
